@@ -95,7 +95,7 @@ def run_demos(chk, demos=None):
         for b in bads:
             for bad in b["bad"]:
                 for e in bad["errs"]:
-                    hits.append({"why": e["why"], "feats": frozenset([f"demo-{name}"]), "size": 10**9,
+                    hits.append({"why": e["why"], "feats": frozenset([f"demo-{name}", "at-" + str(e["at"])]), "size": 10**9,
                                  "what": f"{name}: {bad['path']}: {e['why']} ({e['at']})",
                                  "replay": pb.replay_doc("C11", "demo", {"demo": name, "path": bad["path"], "why": e["why"], "at": e["at"]})})
     return hits, n
